@@ -401,6 +401,21 @@ func statusRules(m *mectx, c *Ctx, R func(string) string) {
 			isNew := func(v ssa.Value) bool { al, ok := stripConv(v).(*ssa.Alloc); return ok && al.Parent() == m.newEp }
 			cs := newCondSpace(m.newEp, recOf(eqAtom("recovering", statusOf(isNew), constIs(m.recovering))), "recovering")
 			imp, wit := cs.Implies(cs.Reach(s.Instr), cs.Atom("recovering"))
+			if !imp {
+				// the same fact, stated on the value the status is initialised with (the test may be on a local holding it)
+				var stored []ssa.Value
+				for _, a := range m.ai.ByFn[m.newEp] {
+					if a.Field == "endpoint.status" && a.What == "store" && isNew(a.Base) {
+						stored = append(stored, cs.ResolveUnder(a.Instr.(*ssa.Store).Val, cs.Reach(s.Instr))...)
+					}
+				}
+				imp = len(stored) > 0
+				for _, v := range stored {
+					if k, isC := constInt(v); !isC || k != m.recovering {
+						imp = false
+					}
+				}
+			}
 			c.check(imp, R("C14.no-extend"), "newEndpoint → scheduleUnavailable", p.ipos(s.Instr), "a new endpoint gets a recovery timer only when it starts as recovering", "timer scheduled for a new endpoint that is not recovering: "+wit)
 		case m.seaInner:
 			var lk *ssa.Lookup
